@@ -44,6 +44,11 @@ def assemble(blocks, npts):
     return np.transpose(full, [dims.index(e) for e in range(d)]), np.transpose(cnt, [dims.index(e) for e in range(d)])
 
 
+# physical constants in which the sibling constants (ion / electron / density profiles) all differ: the defaults have
+# deltaRTe = deltaRTi, kTe = kTi, CTe = CTi, deltaRN0 = 2 deltaRTe, under which a profile built from the wrong sibling is the same
+DISTINCT_CONSTANTS = {'deltaRTi': 1.6, 'deltaRTe': 0.8, 'kTi': 0.2, 'kTe': 0.31, 'CTi': 0.9, 'CTe': 1.3, 'kN0': 0.07, 'deltaRN0': 2.4}
+
+
 class Sim:
     """everything fullSimulation.py builds before its loop, for a given process grid"""
 
